@@ -467,6 +467,11 @@ func (r *rewriter) rewriteCall(n *ast.CallExpr) ast.Expr {
 			if name == "NewCond" {
 				gap(r.fset, n.Pos(), "sync.NewCond")
 			}
+		case "sync/atomic":
+			// atomic.AddUint32(&x, 1) -> simrt.Pre(atomic.AddUint32)(&x, 1): a pre-emption point
+			// in front of the operation
+			r.counts["atomic"]++
+			return &ast.CallExpr{Fun: r.call("Pre", n.Fun), Args: n.Args, Ellipsis: n.Ellipsis}
 		}
 		return nil
 	}
@@ -485,6 +490,11 @@ func (r *rewriter) rewriteCall(n *ast.CallExpr) ast.Expr {
 						return r.call("DialContext", append([]ast.Expr{d}, n.Args...)...)
 					}
 					gap(r.fset, n.Pos(), "net.Dialer.Dial")
+				}
+				if fn.Pkg().Path() == "sync/atomic" {
+					// v.Load() -> simrt.Pre(v.Load)() for atomic.Value, atomic.Bool, ...
+					r.counts["atomic"]++
+					return &ast.CallExpr{Fun: r.call("Pre", n.Fun), Args: n.Args, Ellipsis: n.Ellipsis}
 				}
 				if fn.Pkg().Path() == "sync" {
 					tname, mname, ptr, ok := r.syncMethod(n)
